@@ -22,6 +22,7 @@ func init() {
 			a.sexpDiscipline("S.sexp")
 			a.randomDiscipline("E.random")
 			a.akeStateInvariant("T.ake-state")
+			a.c16Whitespace() // the tag scan consumes one group per iteration (no iteration without progress)
 			a.retireImpliesMove()
 			a.fragmentResetBeforeDispatch("S.fragment-reset")
 		})
